@@ -288,7 +288,7 @@ func runC04SDK(c *vh.Case, spec c04Spec) {
 			return &mcp.CreateMessageResult{Model: "m", Role: "assistant", Content: &mcp.TextContent{Text: fmt.Sprintf("nonce-%d", n)}}, nil
 		},
 	})
-	pair, err := vhm.Connect(ctx, vhm.PairOpts{Kind: spec.Transport, Server: server, Client: client, ClientVersion: spec.Version, DisableStandaloneSSE: spec.NoStandaloneSSE, HTTPOpts: &mcp.StreamableHTTPOptions{PropagateRequestCancellation: spec.Propagate}})
+	pair, err := vhm.Connect(ctx, vhm.PairOpts{Kind: spec.Transport, Server: server, Client: client, ClientVersion: spec.Version, DisableStandaloneSSE: spec.NoStandaloneSSE, AsyncDelete: true, HTTPOpts: &mcp.StreamableHTTPOptions{PropagateRequestCancellation: spec.Propagate}})
 	if err != nil {
 		c.Inconclusive("connect %s: %v", spec.Transport, err)
 		return
